@@ -138,8 +138,6 @@ def templates(tier, seed):
     for shape in ("rect", "ellipse"):
         for kind in ("abs", "pct"):
             tds.append(dict(fam="dwh", shape=shape, kind=kind))
-    if tier == "quick":
-        tds = sample_quota(tds, lambda t: (t["fam"], t.get("shape"), t.get("delta")), 16, seed)
     return tds
 
 
